@@ -4,8 +4,8 @@ CONSTANTS
   T = 100
   STALL = {}
   LateResponseOK = TRUE
-  NoTimeout = FALSE
-  MaxId = 4
+  NoTimeout = TRUE
+  MaxId = 200
   ACCEPT <- TraceNat
   DELAY <- TraceNat
   EX = 0
